@@ -79,7 +79,9 @@ type codec struct {
 	equal  func(a, b any) bool
 	// reuse: one object decodes prev, then b; returns what its Marshal gives afterwards
 	reuse func(prev, b []byte) ([]byte, bool)
-	lens  []lenField
+	// marshal: what the decoded object's own Marshal returns (nil: same as encode)
+	marshal func(v any) []byte
+	lens    []lenField
 }
 
 func safely(f func()) (panicked any) {
@@ -114,7 +116,12 @@ func codecs() map[string]codec {
 			ok := r.Unmarshal(b)
 			return r, ok
 		},
-		encode: func(v any) []byte { return v.(*type1.BasicPrivateTokenRequest).Marshal() },
+		encode: func(v any) []byte {
+			// canonical encoding of the *value*: Marshal of a fresh object with the same fields
+			r := v.(*type1.BasicPrivateTokenRequest)
+			return (&type1.BasicPrivateTokenRequest{TokenKeyID: r.TokenKeyID, BlindedReq: r.BlindedReq}).Marshal()
+		},
+		marshal: func(v any) []byte { return v.(*type1.BasicPrivateTokenRequest).Marshal() },
 		equal: func(a, b any) bool {
 			return a.(*type1.BasicPrivateTokenRequest).Equal(*b.(*type1.BasicPrivateTokenRequest))
 		},
@@ -133,7 +140,11 @@ func codecs() map[string]codec {
 			ok := r.Unmarshal(b)
 			return r, ok
 		},
-		encode: func(v any) []byte { return v.(*type2.BasicPublicTokenRequest).Marshal() },
+		encode: func(v any) []byte {
+			r := v.(*type2.BasicPublicTokenRequest)
+			return (&type2.BasicPublicTokenRequest{TokenKeyID: r.TokenKeyID, BlindedReq: r.BlindedReq}).Marshal()
+		},
+		marshal: func(v any) []byte { return v.(*type2.BasicPublicTokenRequest).Marshal() },
 		equal: func(a, b any) bool {
 			return a.(*type2.BasicPublicTokenRequest).Equal(*b.(*type2.BasicPublicTokenRequest))
 		},
@@ -152,7 +163,11 @@ func codecs() map[string]codec {
 			ok := r.Unmarshal(b)
 			return r, ok
 		},
-		encode: func(v any) []byte { return v.(*type3.RateLimitedTokenRequest).Marshal() },
+		encode: func(v any) []byte {
+			r := v.(*type3.RateLimitedTokenRequest)
+			return (&type3.RateLimitedTokenRequest{RequestKey: r.RequestKey, NameKeyID: r.NameKeyID, EncryptedTokenRequest: r.EncryptedTokenRequest, Signature: r.Signature}).Marshal()
+		},
+		marshal: func(v any) []byte { return v.(*type3.RateLimitedTokenRequest).Marshal() },
 		equal: func(a, b any) bool {
 			return a.(*type3.RateLimitedTokenRequest).Equal(*b.(*type3.RateLimitedTokenRequest))
 		},
@@ -171,7 +186,11 @@ func codecs() map[string]codec {
 			ok := r.Unmarshal(b)
 			return r, ok
 		},
-		encode: func(v any) []byte { return v.(*type5.BatchedPrivateTokenRequest).Marshal() },
+		encode: func(v any) []byte {
+			r := v.(*type5.BatchedPrivateTokenRequest)
+			return (&type5.BatchedPrivateTokenRequest{TokenKeyID: r.TokenKeyID, BlindedReq: r.BlindedReq}).Marshal()
+		},
+		marshal: func(v any) []byte { return v.(*type5.BatchedPrivateTokenRequest).Marshal() },
 		equal: func(a, b any) bool {
 			return a.(*type5.BatchedPrivateTokenRequest).Equal(*b.(*type5.BatchedPrivateTokenRequest))
 		},
@@ -185,11 +204,9 @@ func codecs() map[string]codec {
 			return r.Marshal(), true
 		}, lens: []lenField{{3, 'v'}}}
 	m["InnerRequest"] = codec{name: "InnerRequest",
-		decode: func(b []byte) (any, bool) { r := new(type3.InnerTokenRequest); ok := r.Unmarshal(b); return r, ok },
-		encode: func(v any) []byte {
-			// encode a copy so that the value's own cache does not decide the answer
-			return v.(*type3.InnerTokenRequest).Marshal()
-		},
+		decode:  func(b []byte) (any, bool) { r := new(type3.InnerTokenRequest); ok := r.Unmarshal(b); return r, ok },
+		encode:  func(v any) []byte { return innerCanonical(v.(*type3.InnerTokenRequest)) },
+		marshal: func(v any) []byte { return v.(*type3.InnerTokenRequest).Marshal() },
 		equal: func(a, b any) bool {
 			return bytes.Equal(a.(*type3.InnerTokenRequest).Marshal(), b.(*type3.InnerTokenRequest).Marshal())
 		},
@@ -207,8 +224,9 @@ func codecs() map[string]codec {
 		encode: func(v any) []byte { return v.(type3.EncapKey).Marshal() },
 		equal:  func(a, b any) bool { return bytes.Equal(a.(type3.EncapKey).Marshal(), b.(type3.EncapKey).Marshal()) }}
 	m["BatchRequest"] = codec{name: "BatchRequest",
-		decode: func(b []byte) (any, bool) { r := new(batched.BatchedTokenRequest); ok := r.Unmarshal(b); return r, ok },
-		encode: func(v any) []byte { return v.(*batched.BatchedTokenRequest).Marshal() },
+		decode:  func(b []byte) (any, bool) { r := new(batched.BatchedTokenRequest); ok := r.Unmarshal(b); return r, ok },
+		encode:  func(v any) []byte { return v.(*batched.BatchedTokenRequest).Marshal() },
+		marshal: func(v any) []byte { return v.(*batched.BatchedTokenRequest).Marshal() },
 		equal: func(a, b any) bool {
 			return bytes.Equal(a.(*batched.BatchedTokenRequest).Marshal(), b.(*batched.BatchedTokenRequest).Marshal())
 		},
@@ -301,6 +319,11 @@ func (mo *monitor) offer(name string, b []byte, honest bool, label string) {
 		mo.res.Nontrivial(name + "/accepted-mutant/" + label)
 	}
 	canon := append([]byte(nil), c.encode(v)...)
+	if c.marshal != nil {
+		if own := c.marshal(v); !bytes.Equal(own, canon) {
+			mo.res.Violate("C04/B/"+name+"/marshal-not-canonical", fmt.Sprintf("%s: after decoding accepted bytes (%d bytes, %s) the object's Marshal returns %d bytes, the canonical encoding of the decoded value has %d", name, len(b), label, len(own), len(canon)), -1)
+		}
+	}
 	if honest && !bytes.Equal(canon, b) {
 		mo.res.Violate("C04/A/"+name+"/roundtrip", fmt.Sprintf("%s: decode(encode(v)) re-encodes differently (first difference at byte %d of %d)", name, firstDiff(canon, b), len(b)), -1)
 		return
@@ -489,6 +512,14 @@ func (c c04) Execute(p *core.Plan) *core.Result {
 	for _, is := range w.I3 {
 		mo.offer("EncapKey", is.NameKeyBytes, true, "honest")
 		mo.mutants("EncapKey", is.NameKeyBytes, nm/2)
+		// well-formed keys that advertise other registered KDF / AEAD identifiers
+		for _, kdf := range []byte{1, 2, 3} {
+			for _, aead := range []byte{1, 2, 3} {
+				k := append([]byte(nil), is.NameKeyBytes...)
+				k[len(k)-3], k[len(k)-1] = kdf, aead
+				mo.offer("EncapKey", k, true, fmt.Sprintf("honest-kdf%d-aead%d", kdf, aead))
+			}
+		}
 	}
 	r := core.NewRand(uint64(p.C("mutseed", 1)) ^ 0x1221)
 	for i := 0; i < 3; i++ {
@@ -598,4 +629,17 @@ func (c c04) rust(mo *monitor) {
 		mo.offer("BatchResponses", rs, true, fmt.Sprintf("rust-vector-%d", i))
 		mo.res.Probe("Rust interop vector replayed through the batch decoders")
 	}
+}
+
+// innerCanonical encodes the value of an inner token request with the monitor's own encoder
+// (fields are unexported: read through reflection): key id || blinded_msg[256] || u16-prefixed
+// padded origin.
+func innerCanonical(r *type3.InnerTokenRequest) []byte {
+	v := reflect.ValueOf(r).Elem()
+	var out []byte
+	out = append(out, byte(v.FieldByName("tokenKeyId").Uint()))
+	out = append(out, v.FieldByName("blindedMsg").Bytes()...)
+	po := v.FieldByName("paddedOrigin").Bytes()
+	out = append(out, byte(len(po)>>8), byte(len(po)))
+	return append(out, po...)
 }
